@@ -874,6 +874,13 @@ def _parse_source_for_lambda(
 
     # If this is a function, then things are going to be very easy.
     if start_token.string == "def":
+        if inspect.unwrap(ast_source) is not ast_source:
+            # `inspect` would hand us the text of the function a decorator wrapped, not of
+            # the wrapper that was passed.
+            raise ValueError(
+                f"Unable to recover the source of {ast_source}: it is the result of a "
+                "decorator. Pass the undecorated function or a lambda."
+            )
         function_source = inspect.getsource(ast_source)
         if function_source[:1] in (" ", "\t"):
             # An indented definition: give it a block to live in. Cutting the indent off every
